@@ -37,8 +37,9 @@ def swarm(prop, r, tier):
     cfg["slot_reuse"] = prop in ("C07", "C16", "C05", "C09", "C01") and R.chance(0.1)
     cfg["mux_slot0"] = prop in ("C14", "C15", "C12", "C16", "C05") and not cfg["slot_reuse"] and R.chance(0.08)
     cfg["mixed_scale"] = prop in ("C01", "C02", "C03", "C07", "C09") and R.chance(0.1)
-    if prop in ("C01", "C02", "C07") and R.chance(0.03):
+    if prop in ("C01", "C02", "C07", "C08") and R.chance(0.03):
         cfg["names"] = "summary"
+    cfg["zero_phase"] = prop in ("C01", "C02", "C06", "C07", "C19") and R.chance(0.15)
     if prop in ("C14", "C16", "C15", "C12", "C17") and R.chance(0.03):
         cfg["names"] = "markup"
     cfg["tables2d_general"] = R.pick([0.3, 0.6])
